@@ -1,7 +1,6 @@
 package checks
 
 import (
-	"regexp"
 	"bytes"
 	"fmt"
 	"go/ast"
@@ -9,6 +8,7 @@ import (
 	"go/parser"
 	"go/token"
 	"math/rand"
+	"regexp"
 	"strconv"
 	"strings"
 	"time"
@@ -361,7 +361,12 @@ func c04RecoveryStrata() []*gast.Grammar {
 		{Name: "P", Expr: gast.Rec(gast.Rec(gast.S(gast.Lab("a", gast.L("<")), gast.Lab("b", gast.C(word(), gast.Thr("L2"), gast.Thr("L1"))), act(gast.L(">"), 1)),
 			act(gast.Lab("d", gast.L("?")), 2), "L1"), gast.S(gast.St(3, mon.Spec{S: 1}), gast.Lab("e", gast.Opt(gast.L("!"))), act(gast.L(""), 4)), "L2")},
 	}}
-	return []*gast.Grammar{g1, g2}
+	// a throw but no recovery operator anywhere in the grammar
+	g3 := &gast.Grammar{Rules: []*gast.Rule{
+		{Name: "S", Expr: gast.S(gast.Star(gast.Ref("T")), gast.Star(gast.Dot()))},
+		{Name: "T", Expr: gast.C(act(gast.Cl(gast.Chars("ab")), 1), gast.S(gast.L("!"), gast.Thr("L1")))},
+	}}
+	return []*gast.Grammar{g1, g2, g3}
 }
 
 func (c *Ctx) runKnownC04() {
